@@ -113,3 +113,169 @@ Proof.
       by (field; assumption).
     apply cis_period.
 Qed.
+
+(* ===== inversion: the inverse transform of the forward transform is the signal ===== *)
+Lemma csum_S f n : csum f (S n) = Cplus (csum f n) (f n).
+Proof.
+  unfold csum. rewrite seq_S, fold_right_app. simpl.
+  generalize (seq 0 n). intros l. induction l as [|a l IH]; simpl.
+  - ring.
+  - rewrite IH. ring.
+Qed.
+
+Lemma csum_0 f : csum f 0 = RtoC 0. Proof. reflexivity. Qed.
+
+Lemma csum_plus f g n : csum (fun k => Cplus (f k) (g k)) n = Cplus (csum f n) (csum g n).
+Proof. induction n as [|n IH]; [unfold csum; simpl; ring|]. rewrite !csum_S, IH. ring. Qed.
+
+Lemma csum_scal c f n : csum (fun k => Cmult c (f k)) n = Cmult c (csum f n).
+Proof. induction n as [|n IH]; [unfold csum; simpl; ring|]. rewrite !csum_S, IH. ring. Qed.
+
+Lemma csum_swap (f : nat -> nat -> C) n1 n2 :
+  csum (fun k => csum (fun m => f k m) n2) n1 = csum (fun m => csum (fun k => f k m) n1) n2.
+Proof.
+  induction n1 as [|n1 IH].
+  - rewrite csum_0. induction n2 as [|n2 IH2]; [reflexivity|]. rewrite csum_S, <- IH2, csum_0. ring.
+  - rewrite csum_S, IH. rewrite <- csum_plus. apply csum_ext. intros m _. rewrite csum_S. reflexivity.
+Qed.
+
+Lemma cis_0 : cis 0 = RtoC 1. Proof. unfold cis. rewrite cos_0, sin_0. reflexivity. Qed.
+
+(* geometric sum of the powers of cis a *)
+Lemma geometric_cis a n :
+  Cmult (Cminus (RtoC 1) (cis a)) (csum (fun k => cis (INR k * a)) n) = Cminus (RtoC 1) (cis (INR n * a)).
+Proof.
+  induction n as [|n IH].
+  - rewrite csum_0. simpl. rewrite Rmult_0_l, cis_0. ring.
+  - rewrite csum_S. rewrite Cmult_plus_distr_l, IH.
+    rewrite S_INR. replace ((INR n + 1) * a) with (INR n * a + a) by ring. rewrite cis_add. ring.
+Qed.
+
+Lemma cos_lt_1_open x : 0 < x < 2 * PI -> cos x < 1.
+Proof.
+  intros H. replace x with (2 * (x / 2)) by field. rewrite cos_2a_sin.
+  assert (0 < sin (x / 2)) by (apply sin_gt_0; lra). nra.
+Qed.
+
+Lemma cis_neq_1 x : (0 < x < 2 * PI) \/ (- (2 * PI) < x < 0) -> cis x <> RtoC 1.
+Proof.
+  intros H E. unfold cis, RtoC in E. inversion E as [[Ec Es]].
+  destruct H as [H|H].
+  - pose proof (cos_lt_1_open x H). lra.
+  - pose proof (cos_lt_1_open (- x) ltac:(lra)) as Hc. rewrite cos_neg in Hc. lra.
+Qed.
+
+(* orthogonality of the roots of unity *)
+Lemma roots_sum (n : nat) (d : Z) : (0 < n)%nat ->
+  csum (fun k => cis (2 * PI * IZR d * INR k / INR n)) n
+  = if (d mod Z.of_nat n =? 0)%Z then RtoC (INR n) else RtoC 0.
+Proof.
+  intros Hn. assert (Hn0 : INR n <> 0) by (apply not_0_INR; lia).
+  assert (Hnpos : 0 < INR n) by (apply lt_0_INR; assumption).
+  pose proof (Z.div_mod d (Z.of_nat n) ltac:(lia)) as Hdm.
+  pose proof (Z.mod_pos_bound d (Z.of_nat n) ltac:(lia)) as Hr.
+  set (q := (d / Z.of_nat n)%Z) in *. set (r := (d mod Z.of_nat n)%Z) in *.
+  (* every term only depends on r *)
+  assert (Eterm : forall k, cis (2 * PI * IZR d * INR k / INR n) = cis (INR k * (2 * PI * IZR r / INR n))).
+  { intros k. rewrite Hdm, plus_IZR, mult_IZR, <- INR_IZR_INZ.
+    replace (2 * PI * (INR n * IZR q + IZR r) * INR k / INR n)
+      with (INR k * (2 * PI * IZR r / INR n) + 2 * IZR (q * Z.of_nat k) * PI).
+    - apply cis_period_Z.
+    - rewrite mult_IZR, <- INR_IZR_INZ. field. assumption. }
+  rewrite (csum_ext _ (fun k => cis (INR k * (2 * PI * IZR r / INR n)))) by (intros; apply Eterm).
+  destruct (Z.eqb_spec r 0) as [E0|E0].
+  - rewrite E0. rewrite (csum_ext _ (fun _ => RtoC 1)).
+    + clear. induction n as [|n IH]; [reflexivity|]. rewrite csum_S, IH, S_INR. unfold RtoC, Cplus. simpl. f_equal; ring.
+    + intros k _. replace (INR k * (2 * PI * 0 / INR n)) with 0 by (field; assumption). apply cis_0.
+  - set (a := 2 * PI * IZR r / INR n).
+    pose proof (geometric_cis a n) as G.
+    assert (Ena : cis (INR n * a) = RtoC 1).
+    { unfold a. replace (INR n * (2 * PI * IZR r / INR n)) with (0 + 2 * IZR r * PI) by (field; assumption).
+      rewrite cis_period_Z. apply cis_0. }
+    rewrite Ena in G. replace (Cminus (RtoC 1) (RtoC 1)) with (RtoC 0) in G by (unfold RtoC, Cminus, Cplus, Copp; simpl; f_equal; ring).
+    assert (Hne : Cminus (RtoC 1) (cis a) <> RtoC 0).
+    { intro E. apply (cis_neq_1 a).
+      - left. unfold a. assert (0 < IZR r) by (apply IZR_lt; lia).
+        assert (IZR r < INR n) by (rewrite INR_IZR_INZ; apply IZR_lt; lia).
+        split.
+        + apply Rdiv_lt_0_compat; [|assumption]. pose proof PI_RGT_0. nra.
+        + apply Rmult_lt_reg_r with (INR n); [assumption|]. unfold Rdiv. rewrite Rmult_assoc, Rinv_l, Rmult_1_r by assumption.
+          pose proof PI_RGT_0. nra.
+      - replace (cis a) with (Cminus (RtoC 1) (Cminus (RtoC 1) (cis a))) by ring. rewrite E. ring. }
+    set (A := Cminus (RtoC 1) (cis a)) in *. set (S := csum (fun k => cis (INR k * a)) n) in *.
+    replace S with (Cmult (Cinv A) (Cmult A S)).
+    + rewrite G. ring.
+    + rewrite Cmult_assoc, Cinv_l by exact Hne. ring.
+Qed.
+
+(* the forward transform: X[k] = sum_m x[m] exp(-2 pi i m k / n) *)
+Definition dft (x : nat -> C) (n : nat) (k : nat) : C :=
+  csum (fun m => Cmult (x m) (cis (- 2 * PI * INR m * INR k / INR n))) n.
+
+Lemma delta_sum (x : nat -> C) (c : C) j n :
+  csum (fun m => Cmult (x m) (if Nat.eqb j m then c else RtoC 0)) n
+  = if Nat.ltb j n then Cmult c (x j) else RtoC 0.
+Proof.
+  induction n as [|n IH]; [reflexivity|].
+  rewrite csum_S, IH.
+  destruct (Nat.ltb_spec j n) as [H|H]; destruct (Nat.ltb_spec j (S n)) as [H'|H']; try lia.
+  - replace (Nat.eqb j n) with false by (symmetry; apply Nat.eqb_neq; lia). ring.
+  - assert (j = n) by lia. subst j. rewrite Nat.eqb_refl. ring.
+  - replace (Nat.eqb j n) with false by (symmetry; apply Nat.eqb_neq; lia). ring.
+Qed.
+
+(* inversion: idft (dft x) = x on the stored samples *)
+Lemma idft_dft (x : nat -> C) n (j : nat) : (j < n)%nat ->
+  idft (dft x n) n (Z.of_nat j) = x j.
+Proof.
+  intros Hj. assert (Hn : (0 < n)%nat) by lia. assert (Hn0 : INR n <> 0) by (apply not_0_INR; lia).
+  unfold idft, dft.
+  (* move the phase inside, swap the two sums *)
+  rewrite (csum_ext _ (fun k => csum (fun m => Cmult (x m)
+             (cis (2 * PI * IZR (Z.of_nat j - Z.of_nat m) * INR k / INR n))) n)).
+  2:{ intros k _. rewrite Cmult_comm, <- csum_scal. apply csum_ext. intros m _.
+      rewrite Cmult_assoc, (Cmult_comm _ (x m)), <- Cmult_assoc. f_equal. rewrite <- cis_add. f_equal.
+      rewrite minus_IZR, <- !INR_IZR_INZ. field. assumption. }
+  rewrite csum_swap.
+  rewrite (csum_ext _ (fun m => Cmult (x m) (if Nat.eqb j m then RtoC (INR n) else RtoC 0))).
+  2:{ intros m Hm. rewrite csum_scal. f_equal. rewrite roots_sum by assumption.
+      destruct (Nat.eqb_spec j m) as [E|E].
+      - subst m. rewrite Z.sub_diag. rewrite Zmod_0_l. reflexivity.
+      - replace ((Z.of_nat j - Z.of_nat m) mod Z.of_nat n =? 0)%Z with false; [reflexivity|].
+        symmetry. apply Z.eqb_neq. intro E0.
+        apply Z.mod_divide in E0; [|lia]. destruct E0 as [q Eq].
+        assert (Hb : (- Z.of_nat n < Z.of_nat j - Z.of_nat m < Z.of_nat n)%Z) by lia.
+        assert (q = 0)%Z by nia. subst q. lia. }
+  rewrite delta_sum. replace (Nat.ltb j n) with true by (symmetry; apply Nat.ltb_lt; assumption).
+  rewrite Cmult_assoc. replace (Cmult (RtoC (/ INR n)) (RtoC (INR n))) with (RtoC 1).
+  - ring.
+  - unfold RtoC, Cmult. simpl. f_equal; field; assumption.
+Qed.
+
+(* hence: shifting the spectrum of x by m whole samples and transforming back gives x
+   delayed circularly by m samples *)
+Lemma shift_delays_signal (x : nat -> C) n dt (m : Z) (j : nat) : (j < n)%nat -> dt <> 0 ->
+  idft (shift_spectrum (dft x n) n dt (IZR m * dt)) n (Z.of_nat j)
+  = x (Z.to_nat ((Z.of_nat j - m) mod Z.of_nat n)).
+Proof.
+  intros Hj Hdt. assert (Hn : (0 < n)%nat) by lia.
+  rewrite shift_whole_samples by assumption.
+  pose proof (Z.div_mod (Z.of_nat j - m) (Z.of_nat n) ltac:(lia)) as Hdm.
+  pose proof (Z.mod_pos_bound (Z.of_nat j - m) (Z.of_nat n) ltac:(lia)) as Hr.
+  set (r := ((Z.of_nat j - m) mod Z.of_nat n)%Z) in *. set (q := ((Z.of_nat j - m) / Z.of_nat n)%Z) in *.
+  rewrite Hdm.
+  (* periodicity q times *)
+  assert (P : forall (q : Z) t, idft (dft x n) n (Z.of_nat n * q + t) = idft (dft x n) n t).
+  { intros q0 t. destruct q0 as [|p|p].
+    - f_equal. lia.
+    - induction p as [|p IH] using Pos.peano_ind.
+      + replace (Z.of_nat n * 1 + t)%Z with (t + Z.of_nat n)%Z by ring. apply idft_periodic. assumption.
+      + replace (Z.of_nat n * Z.pos (Pos.succ p) + t)%Z with ((Z.of_nat n * Z.pos p + t) + Z.of_nat n)%Z by lia.
+        rewrite idft_periodic by assumption. exact IH.
+    - induction p as [|p IH] using Pos.peano_ind.
+      + rewrite <- (idft_periodic _ n (Z.of_nat n * -1 + t)) by assumption. f_equal. ring.
+      + rewrite <- (idft_periodic _ n (Z.of_nat n * Z.neg (Pos.succ p) + t)) by assumption.
+        replace (Z.of_nat n * Z.neg (Pos.succ p) + t + Z.of_nat n)%Z with (Z.of_nat n * Z.neg p + t)%Z by lia.
+        exact IH. }
+  rewrite P. rewrite <- (Z2Nat.id r) at 1 by lia. apply idft_dft. lia.
+Qed.
